@@ -89,6 +89,9 @@ type Invoice struct {
 	Settled    bool
 	SettledBy  string // "external" or the paying backend's name
 	Forged     bool   // re-uses the payment hash of another invoice; nobody but that invoice's payee knows the preimage
+	// Canceled: the payee's node has given the invoice up (expired unpaid, or canceled by the operator). It is never
+	// settled afterwards; nodes report it in a state of its own (LND: CANCELED, CLN: expired).
+	Canceled bool
 	subs       []*sub
 }
 
@@ -200,13 +203,25 @@ func (n *Network) InvoiceByRequest(r string) *Invoice {
 	return n.byReq[strings.ToLower(r)] // bech32: the upper-case spelling is the same invoice
 }
 
+// CancelInvoice: the payee's node gives an unpaid invoice up. Returns false if unknown or already settled.
+func (n *Network) CancelInvoice(hash string) bool {
+	n.mu.Lock()
+	defer n.mu.Unlock()
+	i := n.invoices[hash]
+	if i == nil || i.Settled || i.Owner == nil {
+		return false
+	}
+	i.Canceled = true
+	return true
+}
+
 // PayExternally settles a mint-quote invoice from outside (a user paid it). Returns false if unknown or
 // already settled.
 func (n *Network) PayExternally(hash string) bool {
 	n.mu.Lock()
 	defer n.mu.Unlock()
 	i := n.invoices[hash]
-	if i == nil || i.Settled || i.Owner == nil {
+	if i == nil || i.Settled || i.Owner == nil || i.Canceled {
 		return false
 	}
 	i.Settled = true
@@ -471,8 +486,9 @@ func (b *Backend) pay(c *Call, request string, amountMsat, maxFee uint64) (light
 		ans = b.PayScript[0]
 		b.PayScript = b.PayScript[1:]
 	}
-	if inv := b.Net.byReq[strings.ToLower(request)]; inv != nil && inv.Forged {
-		// the payee of an invoice that borrowed somebody else's payment hash cannot settle the HTLC
+	if inv := b.Net.byReq[strings.ToLower(request)]; inv != nil && (inv.Forged || inv.Canceled) {
+		// the payee of an invoice that borrowed somebody else's payment hash cannot settle the HTLC, and a payee that
+		// gave the invoice up will not
 		ans = PayFailed
 	}
 	p := b.payments[c.Hash]
